@@ -41,7 +41,9 @@ B = [
     # C14 compares the migrated metadata with the legacy store's (name None there): excluded
     ("sqlite_name_defaults_to_id", [(SQ, "            [\n                bucket_id,\n                name,\n                type_id,", "            [\n                bucket_id,\n                name or bucket_id,\n                type_id,")], {"exclude": ["C14"]}),
     ("memory_name_none", [(MEM, "        if not name:\n            name = bucket_id\n", "")]),
-    ("peewee_wal", [(PW, "_db = SqliteExtDatabase(None)", "_db = SqliteExtDatabase(None, pragmas={'journal_mode': 'wal'})")]),
+    # not benign for C14: opening an older release's legacy file (rollback journal) with this pragma rewrites its header --
+    # "the legacy file itself is left untouched" (the same change is seeded change C14-r3m2); every other check stays silent
+    ("peewee_wal", [(PW, "_db = SqliteExtDatabase(None)", "_db = SqliteExtDatabase(None, pragmas={'journal_mode': 'wal'})")], {"exclude": ["C14"]}),
     ("get_rounds_start_only_when_needed", [(DS, "        if starttime:\n            starttime = starttime.replace(", "        if starttime and starttime.microsecond % 1000:\n            starttime = starttime.replace(")]),
     ("delete_bucket_flushes_first", [(SQ, "    def delete_bucket(self, bucket_id: str):\n        self.conn.execute(", "    def delete_bucket(self, bucket_id: str):\n        self.commit()\n        self.conn.execute(")]),
     ("memory_sorted_key_tuple", [(MEM, "        last = sorted(self.db[bucket_id], key=lambda e: e.timestamp)[-1]", "        last = sorted(enumerate(self.db[bucket_id]), key=lambda ie: (ie[1].timestamp, ie[0]))[-1][1]")]),
@@ -61,6 +63,13 @@ B = [
     ("sqlite_insert_one_returning", [(SQ, "            + \"VALUES ((SELECT rowid FROM buckets WHERE id = ?), ?, ?, ?)\",\n            [bucket_id, starttime, endtime, datastr],\n        )\n        event.id = c.lastrowid", "            + \"VALUES ((SELECT rowid FROM buckets WHERE id = ?), ?, ?, ?) RETURNING id\",\n            [bucket_id, starttime, endtime, datastr],\n        )\n        event.id = c.fetchone()[0]")]),
     ("sqlite_rejects_with_valueerror", [(SQ, "        self.conn.executemany(query, event_rows)\n        self.conditional_commit(len(event_rows))", "        try:\n            self.conn.executemany(query, event_rows)\n        except sqlite3.IntegrityError as e:\n            raise ValueError(\"Bucket did not exist, could not insert\") from e\n        self.conditional_commit(len(event_rows))")]),
     ("config_first_run_file_trailing_newline", [("aw_core/config.py", "            f.write(_comment_out_toml(default_config))", "            f.write(_comment_out_toml(default_config).rstrip(\"\\n\") + \"\\n\")")]),
+    # fourth batch (after round 8): the correct counterparts of seeded changes the new oracles were written for
+    ("peewee_trim_min_max", [(PW, "        for e in events:\n            if starttime:\n                if e.timestamp < starttime:\n                    e_end = e.timestamp + e.duration\n                    e.timestamp = starttime\n                    e.duration = e_end - e.timestamp\n            if endtime:\n                if e.timestamp + e.duration > endtime:\n                    e.duration = endtime - e.timestamp\n", "        for e in events:\n            e_end = e.timestamp + e.duration\n            if endtime:\n                e_end = min(e_end, endtime)\n            if starttime:\n                e.timestamp = max(e.timestamp, starttime)\n            e.duration = e_end - e.timestamp\n")]),
+    ("datastore_delete_bucket_pop", [(DS, "        if bucket_id in self.bucket_instances:\n            del self.bucket_instances[bucket_id]\n        return self.storage_strategy.delete_bucket(bucket_id)", "        self.bucket_instances.pop(bucket_id, None)\n        return self.storage_strategy.delete_bucket(bucket_id)")]),
+    ("migration_commits_itself", [("aw_datastore/migration.py", "    logger.info(\"Migration of peewee v2 to sqlite v1 finished\")", "    datastore.commit()\n    logger.info(\"Migration of peewee v2 to sqlite v1 finished\")")]),
+    ("query_verify_returns_id", [("aw_query/functions.py", "def _verify_bucket_exists(datastore, bucketname):\n    if bucketname in datastore.buckets():\n        return\n    else:", "def _verify_bucket_exists(datastore, bucketname):\n    if bucketname in datastore.buckets():\n        return bucketname\n    else:"), ("aw_query/functions.py", "    return datastore[bucketname].get(starttime=starttime, endtime=endtime)", "    return datastore[_verify_bucket_exists(datastore, bucketname)].get(\n        starttime=starttime, endtime=endtime\n    )")]),
+    ("config_comment_out_regex", [("aw_core/config.py", "    return \"\\n\".join(\n        [\n            \"#\" + line if line.strip() and not line.strip().startswith(\"[\") else line\n            for line in s.split(\"\\n\")\n        ]\n    )", "    import re\n\n    return re.sub(r\"^(?![^\\S\\n]*$|[^\\S\\n]*\\[)\", \"#\", s, flags=re.MULTILINE)")]),
+    ("memory_replace_builds_copy_with_id", [(MEM, "            event = copy.deepcopy(event)\n            event.id = event_id\n            self.db[bucket_id][idx] = event", "            stored = copy.deepcopy(event)\n            stored[\"id\"] = event_id\n            self.db[bucket_id][idx] = stored")]),
 ]
 
 
